@@ -157,6 +157,14 @@ BUILT = {
             'prescription and trace 30 rays per wavelength bit-identically.',
             'Trusts the snapshot of props/c01.py and a scan of to_dict() for non-JSON leaves to classify save failures.',
             'DESIGN.md §4 C19'),
+    'C12': ('reference-model monitor: every geometric analysis and ray operand recomputed from rays traced separately through the public tracer on a second copy of the lens; Coddington oracle for field curvature; ABCD image height for distortion',
+            'Exploration: 513 (quick) / ~17k (thorough) lens/analysis cases (one family per case: spot data bitwise, '
+            'centroid, RMS/geometric radii, ray fans, encircled energy, RMS spot vs field, distortion f-tan/f-theta, grid '
+            'distortion, field curvature vs Coddington along the real chief ray, pupil aberration, ray and spot operands) '
+            'with every distribution and explicit field/wavelength lists that differ from the lens\'s own.',
+            'Trusts vkit/oracles/coddington.py (planes, spheres, conics, even aspheres; 5e-6 of f + shift^2/f, margin > 20x) '
+            'and the ABCD oracle; unseeded random spots are checked for count only.',
+            'DESIGN.md §4 C12'),
 }
 
 NOT_YET = {}
